@@ -10,7 +10,8 @@
 (* Emitted scenarios (one `laws` action each):                              *)
 (*  - the whole universe at once (all pairs, all triples, every type mixed); *)
 (*  - per column type, every way to put value classes on the two sides A, B  *)
-(*    of a table (|A| = |B| = 1 always; |A| = 2, |B| = 1 at Tier thorough;   *)
+(*    of a table (|A| = |B| = 1 always; 2 + 1 and 1 + 2 over the core        *)
+(*    classes at Tier thorough;                                              *)
 (*    plus the whole class set on both sides), routed through the SQL        *)
 (*    operators DISTINCT, GROUP BY, UNION, INTERSECT, EXCEPT, JOIN, IN.      *)
 (*                                                                         *)
@@ -31,27 +32,38 @@ FloatTypes == {"num", "float", "real", "double"}
 StrTypes   == {"char", "varchar"}
 ColTypes   == IntTypes \cup FloatTypes \cup StrTypes \cup {"bool", "date", "time", "ts", "interval"}
 
-IntCls(t)  == (IF t = "uns" THEN {"0", "1", "2", "max"} ELSE {"min", "m1", "0", "1", "2", "max"})
+\* Core... = the quick classes; the thorough tier adds more classes per type
+CoreIntCls(t) == IF t = "uns" THEN {"0", "1", "2", "max"} ELSE {"min", "m1", "0", "1", "2", "max"}
+IntCls(t)  == CoreIntCls(t)
               \cup (IF Thorough THEN (IF t = "uns" THEN {"3", "i16max", "i32max", "i64max"} ELSE {"m2", "3", "i16max", "i16min", "i32max", "i32min"}) ELSE {})
-FloatCls   == {"nan", "nnan", "ninf", "nmax", "m1_5", "nzero", "pzero", "tiny", "p1", "p1_5", "pmax", "pinf"}
+CoreFloatCls == {"nan", "nnan", "ninf", "nmax", "m1_5", "nzero", "pzero", "tiny", "p1", "p1_5", "pmax", "pinf"}
+FloatCls   == CoreFloatCls
               \cup (IF Thorough THEN {"nanp", "m1", "ntiny", "p2", "third", "eps1", "two53", "minpos"} ELSE {})
-StrCls     == {"empty", "a", "A", "a_sp", "ab", "b", "e_nfc", "e_nfd"}
+CoreStrCls == {"empty", "a", "A", "a_sp", "ab", "b", "e_nfc", "e_nfd"}
+StrCls     == CoreStrCls
               \cup (IF Thorough THEN {"sp", "B", "aa", "a_tab", "z", "Z", "nul", "emoji"} ELSE {})
 BoolCls    == {"f", "t"}
-DateCls    == {"0001-01-01", "1999-12-31", "2000-01-01", "2024-02-29", "9999-12-31"}
+CoreDateCls == {"0001-01-01", "1999-12-31", "2000-01-01", "2024-02-29", "9999-12-31"}
+DateCls    == CoreDateCls
               \cup (IF Thorough THEN {"2000-01-02", "2000-02-01", "2000-10-01", "1900-02-28", "0999-12-31"} ELSE {})
-TimeCls    == {"00:00:00", "00:00:00.000000001", "12:30:45", "23:59:59", "23:59:59.999999999"}
+CoreTimeCls == {"00:00:00", "00:00:00.000000001", "12:30:45", "23:59:59", "23:59:59.999999999"}
+TimeCls    == CoreTimeCls
               \cup (IF Thorough THEN {"00:00:01", "00:01:00", "01:00:00", "12:30:45.5", "12:30:45.500000001"} ELSE {})
-TsCls      == {"0001-01-01 00:00:00", "2000-01-01 00:00:00", "2000-01-01 00:00:00.000000001", "1999-12-31 23:59:59.999999999", "9999-12-31 23:59:59.999999999"}
+CoreTsCls == {"0001-01-01 00:00:00", "2000-01-01 00:00:00", "2000-01-01 00:00:00.000000001", "1999-12-31 23:59:59.999999999", "9999-12-31 23:59:59.999999999"}
+TsCls      == CoreTsCls
               \cup (IF Thorough THEN {"2000-01-01 00:00:01", "2000-01-02 00:00:00", "2024-02-29 12:30:45", "2024-02-29 12:30:45.5"} ELSE {})
 \* the same durations written in different units, zero in three units, negative, fractional, compound forms
-IvCls      == {"1 YEAR", "12 MONTH", "1-0 YEAR TO MONTH", "360 DAY", "1 MONTH", "30 DAY", "1 DAY", "24 HOUR", "1440 MINUTE",
+CoreIvCls == {"1 YEAR", "12 MONTH", "1-0 YEAR TO MONTH", "360 DAY", "1 MONTH", "30 DAY", "1 DAY", "24 HOUR", "1440 MINUTE",
                "86400 SECOND", "0 DAY", "0 MONTH", "0 SECOND", "-1 DAY", "1.5 SECOND", "1.500000 SECOND", "90 MINUTE",
                "1:30:00 HOUR TO SECOND"}
+IvCls      == CoreIvCls
               \cup (IF Thorough THEN {"2 YEAR", "1-6 YEAR TO MONTH", "18 MONTH", "29 DAY", "31 DAY", "-30 DAY", "-1 MONTH", "1 HOUR",
                                       "3600 SECOND", "60 MINUTE", "0:00:01.5 HOUR TO SECOND", "1 0:00:00 DAY TO SECOND", "-24 HOUR",
                                       "1 year", "5 FORTNIGHT"} ELSE {})
 
+CoreCls(t) == IF t \in IntTypes THEN CoreIntCls(t) ELSE IF t \in FloatTypes THEN CoreFloatCls ELSE IF t \in StrTypes THEN CoreStrCls
+              ELSE IF t = "bool" THEN BoolCls ELSE IF t = "date" THEN CoreDateCls ELSE IF t = "time" THEN CoreTimeCls
+              ELSE IF t = "ts" THEN CoreTsCls ELSE CoreIvCls
 Cls(t) == IF t \in IntTypes THEN IntCls(t) ELSE IF t \in FloatTypes THEN FloatCls ELSE IF t \in StrTypes THEN StrCls
           ELSE IF t = "bool" THEN BoolCls ELSE IF t = "date" THEN DateCls ELSE IF t = "time" THEN TimeCls
           ELSE IF t = "ts" THEN TsCls ELSE IvCls
@@ -59,15 +71,17 @@ Cls(t) == IF t \in IntTypes THEN IntCls(t) ELSE IF t \in FloatTypes THEN FloatCl
 ValuesOf(t) == { V(t, c) : c \in Cls(t) }
 Universe    == {V("null", "null")} \cup UNION { ValuesOf(t) : t \in ColTypes }
 ColValues(t) == ValuesOf(t) \cup {V(t, "null")}          \* a typed column may also hold NULL
+CoreColValues(t) == { V(t, c) : c \in CoreCls(t) } \cup {V(t, "null")}
 
 Zeros(n) == [k \in 1..n |-> 0]
 Laws(sql, vals, side) == [a |-> "laws", sql |-> sql, vals |-> vals, side |-> side]
 
 UniverseScenario == Laws("", SetToSeq(Universe), Zeros(Cardinality(Universe)))
 PairScenarios(t)   == { Laws(t, <<x, y>>, <<0, 1>>) : x \in ColValues(t), y \in ColValues(t) }
+TwoSets(S)         == { {x, y} : x \in S, y \in S } \ { {x} : x \in S }
 TripleScenarios(t) == IF Thorough
-                      THEN { Laws(t, SetToSeq(P) \o <<y>>, <<0, 0, 1>>) : P \in { P \in SUBSET ColValues(t) : Cardinality(P) = 2 }, y \in ColValues(t) }
-                           \cup { Laws(t, <<y>> \o SetToSeq(P), <<0, 1, 1>>) : P \in { P \in SUBSET ColValues(t) : Cardinality(P) = 2 }, y \in ColValues(t) }
+                      THEN { Laws(t, SetToSeq(P) \o <<y>>, <<0, 0, 1>>) : P \in TwoSets(CoreColValues(t)), y \in CoreColValues(t) }
+                           \cup { Laws(t, <<y>> \o SetToSeq(P), <<0, 1, 1>>) : P \in TwoSets(CoreColValues(t)), y \in CoreColValues(t) }
                       ELSE {}
 FullScenario(t)    == LET s == SetToSeq(ColValues(t)) n == Len(s)
                       IN Laws(t, s \o Reverse(s), [k \in 1..(2 * n) |-> IF k <= n THEN 0 ELSE 1])
